@@ -376,11 +376,12 @@ func init() {
 	for k, v := range base.Gen.Weights {
 		w[k] = v
 	}
-	for k, v := range map[string]int{"regToken": 7, "regChain": 3, "updToken": 3, "msgUnjail": 3, "regOperator": 2} {
+	for k, v := range map[string]int{"regToken": 8, "regChain": 5, "updToken": 3, "msgUnjail": 3, "regOperator": 2, "depositTok": 6} {
 		w[k] = v
 	}
 	base.Gen.Weights = w
 	base.Gen.DowntimePct = 15
+	base.Gen.WideChains = true
 	cfgOf := base.Config
 	base.Config = func(t *rapid.T) sim.Config {
 		cfg := cfgOf(t)
@@ -518,6 +519,29 @@ func runC18(t *testing.T, propName, testName string) {
 		}
 		if regAVS > 0 {
 			st.Labels["export-with-avs-registered-through-precompile"]++
+		}
+		wideTok, tokDeposit, tokDelegated := false, false, false
+		for i, a := range m.Log {
+			if i < len(m.Outs) && m.Outs[i].OK {
+				if a.Kind == "regToken" && a.Lz >= 103 {
+					wideTok = true
+				}
+				if a.Kind == "depositTok" {
+					tokDeposit = true
+					if a.Mode == 1 {
+						tokDelegated = true
+					}
+				}
+			}
+		}
+		if wideTok {
+			st.Labels["export-with-token-registered-on-a-chain-added-during-the-history"]++
+		}
+		if tokDeposit {
+			st.Labels["export-with-deposit-of-a-token-registered-during-the-history"]++
+		}
+		if tokDelegated {
+			st.Labels["export-with-delegation-of-a-token-registered-during-the-history"]++
 		}
 		if optedAVS > 0 {
 			st.Labels["export-with-operator-opted-into-registered-avs"]++
